@@ -35,6 +35,7 @@ type iterScript struct {
 	failE    int
 	closeErr int // -1 none
 	resultID int
+	more     bool
 }
 
 func (s iterScript) sexp() string {
@@ -63,7 +64,7 @@ func (s iterScript) sexp() string {
 		if s.closeErr >= 0 {
 			ce = fmt.Sprint(s.closeErr)
 		}
-		run = fmt.Sprintf("(rows (%s) %s %s)", strings.Join(rs, " "), fail, ce)
+		run = fmt.Sprintf("(rows (%s) %s %s %d)", strings.Join(rs, " "), fail, ce, b2i(s.more))
 	}
 	return fmt.Sprintf("%d %s %s", b2i(s.hasout), qe, run)
 }
@@ -145,6 +146,7 @@ func setupIter(s iterScript) *iterEnv {
 		if s.closeErr >= 0 {
 			rs.CloseErr = fmt.Errorf("injected-%d", s.closeErr)
 		}
+		rs.More = s.more
 		return rs
 	}
 	f.execResult = func(sql string, _ []driver.NamedValue) (driver.Result, error) {
@@ -457,6 +459,7 @@ func genScript(r *rng) iterScript {
 			if r.chance(1, 6) {
 				s.closeErr = 20 + r.intn(5)
 			}
+			s.more = r.chance(1, 8)
 		} else {
 			s.runKind = "result"
 		}
@@ -568,7 +571,14 @@ func cmdIter(args []string) int {
 			k := 1 + r.intn(9)
 			var ops []string
 			for j := 0; j < k; j++ {
-				ops = append(ops, iterOps[r.intn(len(iterOps))])
+				op := iterOps[r.intn(len(iterOps))]
+				if op == "cancel" && s.more {
+					// cancelling at the end of a result set that is followed by another one is
+					// nondeterministic in database/sql itself (awaitDone selects between the
+					// context and a context derived from it): not generated
+					op = "next"
+				}
+				ops = append(ops, op)
 			}
 			if r.chance(2, 3) {
 				ops = append(ops, "close")
@@ -671,7 +681,7 @@ func iterOracles(req, out string, add func(violation)) {
 			}
 		}
 		// a scripted fetch failure that was reached must be reported by Close
-		if m := regexp.MustCompile(`\(rows \(([^)]*(?:\)[^)]*)*)\) \((\d+) (\d+)\)`).FindStringSubmatch(req); m != nil && len(closes) > 0 {
+		if m := regexp.MustCompile(`\(rows \(([^)]*(?:\)[^)]*)*)\) \((\d+) (\d+)\) \w+ \d\)`).FindStringSubmatch(req); m != nil && len(closes) > 0 {
 			var k, e int
 			fmt.Sscan(m[2], &k)
 			fmt.Sscan(m[3], &e)
